@@ -152,7 +152,9 @@ class StorageClientConfig:
         :param _Config config: The loaded Tahoe-LAFS node configuration.
         """
         ps = config.get_config("client", "peers.preferred", "").split(",")
-        preferred_peers = tuple([p.strip() for p in ps if p != ""])
+        # servers are identified by bytes (get_longname()), the
+        # configuration hands us text
+        preferred_peers = tuple([p.strip().encode("utf-8") for p in ps if p != ""])
 
         enabled_storage_plugins = (
             name.strip()
